@@ -227,10 +227,12 @@ fn kzg_lists(ctx: &KzgCtx, s: &Value) -> Result<KzgLists, String> {
         proofs.push(kzg_proof(ctx, pr, i as u64)?);
     }
     let equal = comms.len() == points.len() && points.len() == vals.len() && vals.len() == proofs.len();
-    // concrete truth of what is claimed: value_i == polynomial(comms_i)(points_i)
-    let mut claims_true = equal;
-    if equal {
-        for (i, c) in arr(s, "comms").iter().enumerate() {
+    // concrete truth of what is claimed: a claim is a complete (commitment, point, value) triple,
+    // value_i == polynomial(comms_i)(points_i), and there is exactly one proof per claim
+    let n_claims = comms.len().min(points.len()).min(vals.len());
+    let mut claims_true = proofs.len() == n_claims;
+    if claims_true {
+        for (i, c) in arr(s, "comms").iter().enumerate().take(n_claims) {
             let src = c.as_i64().unwrap();
             if src == 0 || ctx.polys[src as usize - 1].evaluate(&points[i]) != vals[i] {
                 claims_true = false;
